@@ -404,8 +404,8 @@ Proof.
   - destruct o as [a|a|l r|l r|op l r]; auto. intros t Ht Hnw v Hv Hvw. apply Hnamed; [|exact Hvw].
     simpl. unfold atom_vars, terms_vars. apply in_flat_map. eauto.
   - destruct o as [a|a|l r|l r|op l r]; simpl.
-    + destruct (rw_terms m (aargs a)); exact I.
-    + destruct (rw_terms m (aargs a)); exact I.
+    + destruct (rw_terms m (aargs a)); simpl; exact Logic.I.
+    + destruct (rw_terms m (aargs a)); simpl; exact Logic.I.
     + destruct (rw2_facts sg l r m Hsw Hm0 Hum) as (Hn1 & Cl & Cr & El & Er).
       destruct (rw_term m l) as [n1 l'] eqn:E1. simpl in *.
       destruct (rw_term n1 r) as [n2 r'] eqn:E2. simpl in *.
@@ -422,8 +422,8 @@ Proof.
       rewrite rw_term_wild in E2. injection E2 as <- <-.
       apply eval_term_var_inv in Hxl as [Hx1 _]. apply eval_term_var_inv in Hxr as [Hx2 _].
       injection Hx1 as Hx1. injection Hx2 as Hx2. lia.
-    + destruct (rw_term m l) as [n1 l']. destruct (rw_term n1 r). exact I.
-    + destruct (rw_term m l) as [n1 l']. destruct (rw_term n1 r). exact I.
+    + destruct (rw_term m l) as [n1 l']. destruct (rw_term n1 r). simpl. exact Logic.I.
+    + destruct (rw_term m l) as [n1 l']. destruct (rw_term n1 r). simpl. exact Logic.I.
   - (* back from u to sg: u only adds fresh names *)
     apply (lit_true_coinc _ _ _ u); [|exact Hlt]. intros v Hv.
     destruct (lookup v sg) as [d|] eqn:E; [apply Hx, E|].
